@@ -239,7 +239,7 @@ func breadthScenarios() []Scen {
 }
 
 func graphsAll() []string {
-	return []string{"G1", "G2", "G3", "G4", "G5", "G6", "G7", "G8", "G9", "G10", "G11", "G13", "G14", "G15", "G17", "G18", "G19", "G20", "G21", "G1-512", "G3-512"}
+	return []string{"G1", "G2", "G3", "G4", "G5", "G6", "G7", "G8", "G9", "G10", "G11", "G12", "G13", "G14", "G15", "G16", "G17", "G18", "G19", "G20", "G21", "G22", "G1-512", "G3-512"}
 }
 
 // masks: every subset of the source closure pre-existing at the target
@@ -411,6 +411,11 @@ func exploreScen(t *testing.T, rec *ev.Rec, check string, sc Scen, bound int, br
 			rec.Violation(r.VKey+" "+sc.String(), r.Violation+"\nschedule: "+c.Describe(), copyReplay{Check: check, Scen: sc, Bound: bound, All: branchAll, Choices: explore.Trim(c.Choices())})
 		}
 		rec.Distinct(sc.String() + "#" + r.Outcome + "#" + fmt.Sprint(c.Cost > 0))
+		if c.Cost == 0 && strings.HasPrefix(r.Outcome, "err") {
+			// vacuity guard: a scenario whose default execution already fails exercises nothing
+			rec.Count("scenarios_failing_on_the_default_schedule", 1)
+			rec.Note("fails on the default schedule: " + sc.String())
+		}
 	}
 	func() {
 		defer func() {
